@@ -108,8 +108,9 @@ CLAIMS["C09"] = proof(
     "C09_mutex_free / C09_no_error — the inner mutex is free with no queued listener between polls; no unreachable branch, no fuel exhaustion. C09_spec_sane — the abstract barrier never has more current-generation waits outstanding than arrivals. "
     "Schedule half PROVED: C09_sched — on the micro-step machine of coq/Sched/BarrierEvSched.v (counter, generation and the event; the critical sections of the state mutex — arrival, re-check after a notification — are atomic actions, the poll of the "
     "listener happens outside them; any number of wait() futures, spurious polls, cancellation of waiting futures) for EVERY schedule shorter than 2^64 actions a state with nothing in flight and every woken future re-polled has no wait() of a finished "
-    "generation still waiting; C09_sched_no_notify_refuted: the machine whose leader does not notify leaves the other parties asleep; which machine the source is (gen_bar_ln) is read from the generated site table on every run. The inner mutex being contended "
-    "mid-poll is C01/C05 (C05_sched) and is not composed with this machine; wait_blocking: pinned by Tie_Barrier, loom scenario barrier_race. " + CORR, NOTE)
+    "generation still waiting; C09_sched_no_notify_refuted: the machine whose leader does not notify leaves the other parties asleep; which machine the source is (gen_bar_ln) is read from the generated site table on every run. The state mutex is composed in: C09_sched_with_mutex (coq/Sched/BarrierComp.v) — the barrier's machine x the Mutex machine of C05; the lock futures of the wait()s run on the latter, a critical section runs only while "
+    "one of them holds the mutex and then owes the unlock; for every composed schedule, with nobody holding or owing, the mutex side at rest and every wait() at rest (one that needs the state mutex only if a lock future is parked), no lock future is parked, "
+    "no wait() is stuck before a critical section and no wait() of a finished generation waits. wait_blocking: pinned by Tie_Barrier, loom scenarios barrier_race, blocking_forms, barrier_blocking_generations. " + CORR, NOTE)
 
 CLAIMS["C04"] = proof(
     "History half proved for every history of fewer than 2^64-2 operations (wait / get_or_init / get_or_try_init / set futures polled with any wakers in any order, closures' futures resolved Ok / Err / panic at any time or never, "
